@@ -39,6 +39,9 @@ UNIVERSES = [
     ["/w/é/f", "/w/é/g h", "/w/é", "/w/日本/k"],
     ["/p/../q/x", "/p/../q/y", "../up/a", "../up/b"],
     ["/same/file", "/same/file"],
+    # sibling names that extend one another with a byte that sorts below '/': src < src-old < src/sub in byte order
+    ["/proj/src/main.rs", "/proj/src-old/x.rs", "/proj/src/sub/y.rs", "/proj/conf.d/a", "/proj/conf/b", "/proj/conf/sub/c"],
+    ["/w/d", "/w/d/f", "/w/d/g"],
 ]
 
 
@@ -73,6 +76,10 @@ class C17(Prop):
                 r.shuffle(tags)
                 evs.append({"tags": tags, "meta": {}})
             cases.append({"events": evs})
+        # always: three trunks of the shape D, D-x, D/sub (the middle one sorts between the other two), with no path in the common directory
+        for trio in (["/proj/src/main.rs", "/proj/src-old/x.rs", "/proj/src/sub/y.rs"], ["/proj/conf/b", "/proj/conf.d/a", "/proj/conf/sub/c"]):
+            for k in (kinds[0], kinds[len(kinds) // 2]):
+                cases.append({"events": [{"tags": [{"t": "path", "p": p, "ft": "file"}, {"t": "fek", "k": k}], "meta": {}} for p in trio]})
         return cases
 
     def correspond(self, tier, seed, deep=False):
@@ -93,9 +100,16 @@ class C17(Prop):
         write_jsonl(os.path.join(d, "cases.jsonl"), cases)
         rc1, o1, out1 = run_harness("h_codec", ["paths-summary", os.path.join(d, "cases.jsonl")])
         rc2, o2, out2 = run_harness("h_cli", ["simple-format", os.path.join(d, "cases.jsonl")])
-        if rc1 or rc2 or len(o1) != len(cases) or len(o2) != len(cases):
-            c.errors.append(f"harness failed: {(out1 + out2)[-800:]}")
+        rc3, o3, out3 = run_harness("h_cli", ["env-summary", os.path.join(d, "cases.jsonl")])
+        if rc1 or rc2 or rc3 or len(o1) != len(cases) or len(o2) != len(cases) or len(o3) != len(cases):
+            c.errors.append(f"harness failed: {(out1 + out2 + out3)[-800:]}")
             return c
+        # the environment the CLI hands to the command is the summary, variable for variable (empty values included)
+        for case, a, b in zip(cases, o1, o3):
+            want = sorted([f"WATCHEXEC_{k}_PATH", v] for k, v in a["summary"])
+            if sorted(map(list, b["env"])) != want:
+                c.failing.append({"case": case, "impl": b["env"], "expected": want,
+                                  "clause": "C17: the environment variables handed to the command differ from the path summary"})
 
         def batch_term(case):
             evs = []
